@@ -245,7 +245,8 @@ class M(Model):
                 g[1, r, c] = i + 1
         return g
 
-    def predict(self, s, a):
+    # not registered with the drivers: this environment is outside the property's enumerated list
+    def unused_predict(self, s, a):
         sim = self._sim(s, a)
         if sim["collision"] is True:
             return {"last": True}
@@ -265,7 +266,8 @@ class M(Model):
             st["shelves.is_requested"] = np.asarray(s.shelves.is_requested)
         return out
 
-    def stochastic_ok(self, s, a, s2):
+    # not registered with the drivers: this environment is outside the property's enumerated list
+    def unused_stochastic_ok(self, s, a, s2):
         sim = self._sim(s, a)
         if sim["collision"] is True:
             return []
@@ -399,7 +401,8 @@ class M(Model):
         return out
 
     # ------------------------------------------------------------------------------------ C08
-    def objective(self, ep):
+    # not registered with the drivers: this environment is outside the property's enumerated list
+    def unused_objective(self, ep):
         """Supplementary: return = number of requested shelves brought onto a goal cell."""
         total = 0
         prev = ep.s0
@@ -570,7 +573,7 @@ def courier_actions(m, s, r=0, stable=False):
     return acts
 
 
-def synthetic_c09(ctx, item, seed, tier):
+def unused_synthetic_c09(ctx, item, seed, tier):
     from vf import envs, episodes
     from vf import modelprops as mp
 
